@@ -27,6 +27,36 @@ def const_of(ctx, op):
     return None
 
 
+def const_val(ctx, body, op):
+    """Like const_of, but also sees through single-definition temporaries (`&*"value"`)."""
+    v = const_of(ctx, op)
+    if v is not None:
+        return v
+    e = ctx.expr(body).operand(op)
+    if e[0] == "const" and not (isinstance(e[1], str) and e[1].startswith("fn:")):
+        return e[1]
+    return None
+
+
+def iter_region(body, next_bb):
+    """Blocks executed as part of one iteration of the loop driven by the `next()` call in next_bb,
+    including paths that `break` / `return` out of it (up to where they merge with the normal exit):
+    everything dominated by the Some-arm of the switch on the next() result."""
+    cfg = cfg_of(body)
+    succs = cfg.succ[next_bb]
+    if not succs:
+        return set()
+    sw = succs[0]
+    t = body.blocks[sw]["term"]
+    if not t or t["k"] != "switch":
+        return set()
+    arms = switch_arms(body, sw)
+    some = arms.get(1)
+    if some is None:
+        return set()
+    return {x for x in cfg.reachable if cfg.dominates(some, x)}
+
+
 def skip_trivial(body, bb):
     """Follow goto / falseedge / falseunwind blocks without statements to the first real block."""
     seen = set()
